@@ -250,8 +250,10 @@ def short_tb(exc, limit=6):
     return [f'{fr.name}@{os.path.basename(fr.filename)}' for fr in frames][-limit:]
 
 
-def raising_site(exc, under='/repo/'):
+def raising_site(exc, under=None):
     """(innermost repo function, outermost repo function) of an exception's traceback."""
+    if under is None:
+        under = os.environ.get('NVF_REPO_SRC', '/repo/src')
     frames = [fr for fr in traceback.extract_tb(exc.__traceback__) if under in fr.filename]
     if not frames:
         return ('?', '?')
